@@ -1659,6 +1659,15 @@ func (w *Walker) branch(st *wstate, b *ssa.BasicBlock, in *ssa.If) {
 		if atom.Kind == "bool" && strings.HasPrefix(atom.A, "isnil(") && atruth && w.knownNonNil(atom.A[len("isnil("):len(atom.A)-1]) {
 			continue
 		}
+		// a value known to be nil on this path is not equal to a sentinel that is never nil
+		// ("if err != nil && err != io.EOF {return}; if err == io.EOF {...} else {...}")
+		if atom.Kind == "cmp" && atom.R == EQ && atruth {
+			nilA, okA := st.rel.BoolOf("isnil(" + atom.A + ")")
+			nilB, okB := st.rel.BoolOf("isnil(" + atom.B + ")")
+			if okA && nilA && w.knownNonNil(atom.B) || okB && nilB && w.knownNonNil(atom.A) {
+				continue
+			}
+		}
 		var ns *wstate
 		if edge == 0 {
 			ns = st.clone()
